@@ -154,6 +154,20 @@ func checkSigCase(c SigCase, o *vt.Obs) error {
 		}
 		o.Units(1)
 	}
+	// the complementary signature (r, N-s): an ALTERED signature by the letter of the property. ECDSA without a low-S
+	// rule accepts it by construction (listed finding, consensus rule shared with the reference node).
+	{
+		n := curveOf(c.Curve).Params().N
+		s2 := new(big.Int).Sub(n, new(big.Int).SetBytes(sig[32:]))
+		alt := bytes.Clone(sig)
+		s2.FillBytes(alt[32:])
+		if !bytes.Equal(alt, sig) && pub.Verify(alt, digest[:]) {
+			if !vt.Known(kfSigMalleable) {
+				return fmt.Errorf("altered signature (r, N-s) verifies (sig=%x alt=%x)", sig, alt)
+			}
+			o.Excluded()
+		}
+	}
 	// documented: a signature that is not 64 bytes long is rejected
 	for _, alt := range [][]byte{sig[:63], append(bytes.Clone(sig), 0), sig[1:], {}, nil} {
 		if pub.Verify(alt, digest[:]) {
